@@ -80,8 +80,9 @@ type AMFParams struct {
 // Latency describes the network's timing.
 type Latency struct {
 	Class string  `json:"class"`
-	UL    int64   `json:"ul_ns"`          // gNB -> AMF transit
-	DL    []int64 `json:"dl_ns,omitempty"` // per downlink message (cyclic): processing + transit
+	UL    int64   `json:"ul_ns"`            // gNB -> AMF transit
+	Proc  []int64 `json:"proc_ns,omitempty"` // per downlink message (cyclic): time the core needs before it sends
+	DL    []int64 `json:"dl_ns,omitempty"`   // per downlink message (cyclic): AMF -> gNB transit
 }
 
 // Fault is one injected fault.
